@@ -19,7 +19,7 @@ if [ "$(cat "$VERIF/target/sendsync/.engine-src-hash" 2>/dev/null)" != "$SRC_HAS
   echo "$SRC_HASH" > "$VERIF/target/sendsync/.engine-src-hash"
 fi
 
-for t in mirih; do
+for t in mirih mirih-native; do
   mkdir -p "$VERIF/target/$t"
   if [ "$(cat "$VERIF/target/$t/.engine-src-hash" 2>/dev/null)" != "$SRC_HASH" ]; then
     find "$VERIF/target/$t" -type d -path '*/.fingerprint/arimaa_engine_step-*' -prune -exec rm -rf {} + 2>/dev/null
